@@ -56,7 +56,21 @@ func (x *Exec) readBytes(p, ln *smt.Term, max int, what string) []*smt.Term {
 				break
 			}
 		}
-		out = append(out, x.M.Mem.LoadRaw(smt.Add(p, c64(uint64(i))), 1, &x.hooks, what)[0])
+		if ln.IsConst() {
+			out = append(out, x.M.Mem.LoadRaw(smt.Add(p, c64(uint64(i))), 1, &x.hooks, what)[0])
+			continue
+		}
+		// byte i exists only when i < ln: the access (and its bounds obligation)
+		// is made under that condition; callers use the byte under the same guard
+		inRange := smt.Ugt(ln, c64(uint64(i)))
+		if !x.M.Feasible(inRange) {
+			break
+		}
+		saved := x.M.PC
+		x.M.PC = append(append([]*smt.Term{}, saved...), inRange)
+		b := x.M.Mem.LoadRaw(smt.Add(p, c64(uint64(i))), 1, &x.hooks, what)[0]
+		x.M.PC = saved
+		out = append(out, b)
 	}
 	return out
 }
